@@ -4,6 +4,7 @@
 import Redress.Model.Wire
 import Redress.Model.Run
 import Redress.Monitors
+import Redress.Model.Twin
 
 namespace Driver.Loop
 
@@ -189,6 +190,14 @@ def finish (c : Case) : IO Unit := do
         | none => "-"
       IO.println s!"mon {pid} {name} {k} model={boolTok mv} impl={iv}"
     k := k + 1
+  -- two-run self-checks of the model (C15: silent-hook twin; C12: call vs execute on the same answers)
+  IO.println s!"mon C15 silent_twin 0 model={boolTok (Twin.silentTwinAgrees c.cfg c.steps w0)} impl=-"
+  match c.steps.filterMap (fun s => match s with | .run e => some e | _ => none), c.steps with
+  | [e], [_] =>
+    match Twin.callExecuteAgree c.cfg e w0 with
+    | some b => IO.println s!"mon C12 call_execute 0 model={boolTok b} impl=-"
+    | none => pure ()
+  | _, _ => pure ()
   IO.println s!"mstate now={wf.now} budget={budgetStTok wf.budget} breaker={breakerStTok wf.breaker} unused={wf.answers.length}"
   IO.println "endcase"
 
